@@ -15,6 +15,12 @@ type genCfg struct {
 	collide bool // a file may include two files with equal base names
 	dupNS   bool // a file may state a namespace language twice
 	dupKeys bool // constant maps may repeat a key
+	// forceGoNS: every file states a `namespace go` (needed to import the generated packages)
+	forceGoNS bool
+	// compileSafe avoids shapes on which thriftgo itself crashes or emits Go that does not compile (other
+	// properties' business, see docs/C15.md): qualified identifiers inside literals of structs of another
+	// file, an int literal for an enum of another file, one exception type twice in a throws list
+	compileSafe bool
 }
 
 type rtype struct {
@@ -59,6 +65,8 @@ type gen struct {
 	used   []map[string]bool // every top-level name per file
 	names  map[byte][]string // names handed out per kind, for reuse across files
 	ctr    int
+	noIdent int // >0: inside a literal where identifiers must not be written (compileSafe)
+	curFile int // the file being generated
 }
 
 var pathPool = []string{"a.thrift", "b.thrift", "c.thrift", "d1/base.thrift", "d2/base.thrift", "d1/x.thrift", "sub/deep/y.thrift", "d2/a.thrift", "sub/b.thrift"}
@@ -324,7 +332,7 @@ func (g *gen) qualify(fi, fj int, n string) (string, bool) {
 
 func (g *gen) constOf(fi int, rt *rtype, depth int) *DConst {
 	// a reference to another constant of the same type
-	if g.r.Chance(15) {
+	if g.noIdent == 0 && g.r.Chance(15) {
 		var cands []string
 		for _, c := range g.consts[fi] {
 			if c.key == rt.key_() {
@@ -378,7 +386,7 @@ func (g *gen) constOf(fi int, rt *rtype, depth int) *DConst {
 			return &DConst{Kind: 'i', I: 0}
 		}
 		v := rt.enum.Values[g.r.Intn(len(rt.enum.Values))]
-		if g.r.Chance(75) {
+		if g.noIdent == 0 && (g.r.Chance(75) || (g.cfg.compileSafe && rt.file != fi)) {
 			if q, ok := g.qualify(fi, rt.file, rt.enum.Name+"."+v.Name); ok {
 				return &DConst{Kind: 'x', S: q}
 			}
@@ -424,6 +432,10 @@ func (g *gen) constOf(fi int, rt *rtype, depth int) *DConst {
 		return c
 	case "struct":
 		c := &DConst{Kind: 'm', Sep: sep}
+		if g.cfg.compileSafe && rt.file != fi {
+			g.noIdent++
+			defer func() { g.noIdent-- }()
+		}
 		for _, f := range rt.strct.Fields {
 			frt := g.resolve(rt.file, f.Type)
 			if frt == nil || !g.constable(frt, depth+1) {
@@ -453,8 +465,12 @@ func (g *gen) constable(rt *rtype, depth int) bool {
 		return g.constable(rt.val, depth+1)
 	case "map":
 		return g.constable(rt.key, depth+1) && g.constable(rt.val, depth+1)
+	case "enum":
+		if g.cfg.compileSafe && len(rt.enum.Values) == 0 {
+			return false
+		}
 	case "struct":
-		if rt.strct.Kind != 's' {
+		if rt.strct.Kind != 's' || (g.cfg.compileSafe && g.curFile != rt.file) {
 			return false
 		}
 		for _, f := range rt.strct.Fields {
@@ -552,7 +568,7 @@ func (g *gen) fieldList(fi int, n int, kind byte, self *DStruct) []*DField {
 		} else {
 			f.Type, rt = g.genType(fi, 0, "")
 		}
-		if rt != nil && kind != 'u' && g.r.Chance(30) && g.constable(rt, 0) && rt.kind != "struct" {
+		if rt != nil && kind != 'u' && g.r.Chance(30) && g.constable(rt, 0) && rt.kind != "struct" && g.safeConstType(fi, f.Type, rt, true) {
 			f.Default = g.constOf(fi, rt, 1)
 		}
 		fs = append(fs, f)
@@ -575,9 +591,41 @@ func (g *gen) strct(fi int) {
 	g.addType(fi, s.Name, &tinfo{cat: kind, rt: &rtype{kind: "struct", strct: s, file: fi}})
 }
 
+// safeConstType (compileSafe): thriftgo crashes on constants whose type mentions a typedef of a container, and
+// emits an unused import for a constant whose top-level type is a qualified typedef/enum written without an identifier.
+func (g *gen) safeConstType(fi int, ty *DType, rt *rtype, top bool) bool {
+	if !g.cfg.compileSafe {
+		return true
+	}
+	switch ty.Name {
+	case "list", "set":
+		return g.safeConstType(fi, ty.Val, rt.val, false)
+	case "map":
+		return g.safeConstType(fi, ty.Key, rt.key, false) && g.safeConstType(fi, ty.Val, rt.val, false)
+	}
+	named := true
+	for _, b := range baseTypes {
+		if b == ty.Name {
+			named = false
+		}
+	}
+	if !named {
+		return true
+	}
+	switch rt.kind {
+	case "list", "set", "map":
+		return false // a typedef of a container
+	}
+	if top && strings.Contains(ty.Name, ".") && !(rt.kind == "enum" && len(rt.enum.Values) > 0) {
+		return false
+	}
+	return true
+}
+
 func (g *gen) file(fi int) {
+	g.curFile = fi
 	f := g.doc.Files[fi]
-	if g.r.Chance(85) {
+	if g.cfg.forceGoNS || g.r.Chance(85) {
 		f.NS = append(f.NS, DNS{"go", fmt.Sprintf("pkg%d", fi)})
 	}
 	for _, l := range nsLangs {
@@ -625,7 +673,7 @@ func (g *gen) file(fi int) {
 	for i := g.r.Intn(4); i > 0; i-- {
 		for try := 0; try < 5; try++ {
 			ty, rt := g.genType(fi, 0, "")
-			if !g.constable(rt, 0) {
+			if !g.constable(rt, 0) || !g.safeConstType(fi, ty, rt, true) {
 				continue
 			}
 			c := &DConstDef{Name: g.name(fi, 'c', "c"), Type: ty, Annos: g.annos(), Comments: g.comments()}
@@ -672,6 +720,15 @@ func (g *gen) file(fi int) {
 					ty, _ := g.genType(fi, 0, "x")
 					if ty == nil {
 						break
+					}
+					dup := false
+					for _, o := range fn.Throws {
+						if o.Type.Name == ty.Name {
+							dup = true
+						}
+					}
+					if dup && g.cfg.compileSafe {
+						continue
 					}
 					fn.Throws = append(fn.Throws, &DField{Name: fmt.Sprintf("e%d", len(fn.Throws)+1), ID: int32(len(fn.Throws) + 1), Type: ty, Req: 2, HideReq: true,
 						Annos: g.annos(), Comments: g.comments()})
